@@ -212,7 +212,16 @@ pub struct H2Stream {
 
 impl H2Client {
     pub async fn connect(io: DuplexStream) -> Result<Self, String> {
-        let mut hs = Box::pin(h2::client::Builder::new().handshake::<_, Bytes>(io));
+        Self::connect_with(io, None).await
+    }
+
+    /// `window`: the client's initial stream window (a small one makes the endpoint's sink back-pressured)
+    pub async fn connect_with(io: DuplexStream, window: Option<u32>) -> Result<Self, String> {
+        let mut b = h2::client::Builder::new();
+        if let Some(w) = window {
+            b.initial_window_size(w);
+        }
+        let mut hs = Box::pin(b.handshake::<_, Bytes>(io));
         match until(&mut hs, Duration::from_secs(5)).await {
             Some(Ok((send, conn))) => {
                 let conn = tokio::spawn(async move { conn.await.map_err(|e| e.to_string()) });
